@@ -202,8 +202,8 @@ func (runInfo *runInfoStruct) invokeAddOperator(operator *ast.AddOperator) {
 			return
 		}
 
-		if lhsKind == reflect.Map && rhsKind == reflect.Map {
-			// there is no append on maps
+		if lhsKind == reflect.Map {
+			// there is no append on maps, whatever the right operand is
 			runInfo.err = newStringError(operator, "invalid operation")
 			runInfo.rv = nilValue
 			return
